@@ -199,3 +199,46 @@ Proof.
   induction l as [|x t IH]; intros k H; [constructor|]. inversion H; subst. cbn [takeZ].
   destruct (k <=? 0); [constructor|]. constructor; [assumption | apply IH; assumption].
 Qed.
+
+(* ------------------------------------------------------------------ last element / removelast *)
+Lemma rd_takeZ : forall (l : list Z) k j, 0 <= j < k -> rd (takeZ k l) j = rd l j.
+Proof.
+  induction l as [|x t IH]; intros k j H.
+  - reflexivity.
+  - rewrite takeZ_cons_pos by lia. destruct (Z.eq_dec j 0) as [->|].
+    + rewrite !rd_nth by lia. reflexivity.
+    + rewrite !rd_nth by lia. replace (Z.to_nat j) with (S (Z.to_nat (j - 1))) by lia. cbn [nth].
+      rewrite <- !rd_nth by lia. apply IH. lia.
+Qed.
+
+Lemma rd_app_last : forall (r : list Z) x, rd (r ++ [x]) (zlen (r ++ [x]) - 1) = x.
+Proof.
+  intros. rewrite zlen_app. change (zlen [x]) with 1. replace (zlen r + 1 - 1) with (zlen r) by lia.
+  pose proof (zlen_nonneg _ r). rewrite rd_dropZ by lia. rewrite dropZ_app_exact. reflexivity.
+Qed.
+
+Lemma rd_last : forall (l : list Z), l <> [] -> rd l (zlen l - 1) = last l 0.
+Proof.
+  intros l H. pose proof (rd_app_last (removelast l) (last l 0)) as Hh.
+  rewrite <- (app_removelast_last 0 H) in Hh. exact Hh.
+Qed.
+
+Lemma removelast_last : forall (l : list Z), l <> [] -> l = removelast l ++ [last l 0].
+Proof. intros. apply app_removelast_last. assumption. Qed.
+
+Lemma zlen_removelast : forall (l : list Z), l <> [] -> zlen (removelast l) = zlen l - 1.
+Proof.
+  intros l H. pose proof (removelast_last l H) as E. apply (f_equal (@zlen Z)) in E.
+  rewrite zlen_app in E. change (zlen [last l 0]) with 1 in E. lia.
+Qed.
+
+Lemma takeZ_removelast : forall (l : list Z), l <> [] -> takeZ (zlen l - 1) l = removelast l.
+Proof.
+  intros l H. rewrite (removelast_last l H) at 2. rewrite <- (zlen_removelast l H). apply takeZ_app_exact.
+Qed.
+
+Lemma nonzero_removelast : forall l, nonzero l -> nonzero (removelast l).
+Proof.
+  induction l as [|x t IH]; intros H; [constructor|]. inversion H; subst.
+  destruct t; [constructor|]. cbn [removelast]. constructor; [assumption | apply IH; assumption].
+Qed.
